@@ -1,4 +1,5 @@
 pub mod c11;
 pub mod c12;
 pub mod c13;
+pub mod c15;
 pub mod c21;
